@@ -59,6 +59,15 @@ theorem C11_shared_fn_ok : refsResolve wShared = true := by decide +kernel
 example : roundTrip [] wShared = .ok wShared.toContent :=
   C11_roundtrip_partial wShared wShared_canonical C11_shared_fn_ok
 
+/-- The repaired cross-key class: a derived function named `init_f` next to an initial assignment with `f`
+    now gets the keys `init_f` (derived) and `init_f_` (assignment); the hypothesis holds and the model is
+    rebuilt exactly. -/
+theorem C11_cross_key_ok : refsResolve wCross = true ∧ freeName ["init_f", "g"] "init_f" = "init_f_" := by
+  decide +kernel
+
+example : roundTrip [] wCross = .ok wCross.toContent :=
+  C11_roundtrip_partial wCross wCross_canonical C11_cross_key_ok.1
+
 /-- **Untranslatable functions.**  If a function used by any component cannot be translated, generation
     raises `ValueError` (no source is emitted). -/
 theorem C11_raises_on_untranslatable (bad : List String) (c : NContent)
